@@ -5,6 +5,8 @@ TIER="${1:-quick}"
 cd /verif
 for d in seeded/*/; do
   n=$(basename $d); id=${n%[a-z]}
+  # ONLY_MISSING=1: only the seeds that have no meta.json yet
+  if [ -n "${ONLY_MISSING:-}" ] && [ -f $d/meta.json ]; then continue; fi
   extra=""; [ -f $d/also ] && extra=$(cat $d/also)
   line=$(tools/seed_run.sh $n $TIER $id $extra 2>&1 | tail -1)
   echo "$line"
